@@ -433,6 +433,17 @@ MODULE_WITNESSES = [
     ("strict:module:unknown-keyword-in-atom-group", 4, DZ % ("atomNumbers 1\n      fooBar 2", "0.25"), False, "unknown keyword in an atom group block"),
     ("strict:module:unknown-keyword-in-bias", 4, (DZ % ("atomNumbers 1", "0.25")).replace("  forceConstant 4.0\n", "  forceConstant 4.0\n  fooBar 2\n"), False,
      "unknown keyword in a bias block"),
+    # a misspelling that is a proper PREFIX of an optional keyword of the same block (the whole word must match)
+    ("strict:module:keyword-prefix-accepted", 4, "colvarsTrajFreq 5\n" + DZ % ("atomNumbers 1", "0.25"), False, "`colvarsTrajFreq 5` (prefix of colvarsTrajFrequency) at the module level"),
+    ("strict:module:keyword-prefix-accepted", 4, (DZ % ("atomNumbers 1", "0.25")).replace("  width 0.5\n", "  width 0.5\n  upperBound 3.0\n"), False,
+     "`upperBound 3.0` (prefix of upperBoundary) in a colvar block"),
+    ("strict:module:keyword-prefix-accepted", 4, (DZ % ("atomNumbers 1", "0.25")).replace("    axis (0,0,1)\n", "    axis (0,0,1)\n    componentCoef 2.0\n"), False,
+     "`componentCoef 2.0` (prefix of componentCoeff) in a component block"),
+    ("strict:module:keyword-prefix-accepted", 4, DZ % ("atomNumbers 1\n      atomNumber 2", "0.25"), False, "`atomNumber 2` (prefix of atomNumbers) in an atom group block"),
+    ("strict:module:keyword-prefix-accepted", 4, (DZ % ("atomNumbers 1", "0.25")).replace("  forceConstant 4.0\n", "  forceConstant 4.0\n  outputEner on\n"), False,
+     "`outputEner on` (prefix of outputEnergy) in a harmonic block"),
+    ("strict:module:keyword-prefix-accepted", 4, TEMPLATES[1][2].replace("  upperWalls 2.5\n", "  upperWall 2.5\n"), False,
+     "`upperWall 2.5` (prefix of upperWalls) in a harmonicWalls block that also has lowerWalls"),
     ("crash:colvar::groupcoordnum::init", 4, GC % "indexGroup nosuch", False, "groupCoord with an undefined index group"),
     ("crash:colvar::distance_inv::init", 4, (GC % "indexGroup nosuch").replace("groupCoord", "distanceInv"), False, "distanceInv with an undefined index group"),
     ("crash:colvar::distance_pairs::init", 4, (GC % "indexGroup nosuch").replace("groupCoord", "distancePairs"), False, "distancePairs with an undefined index group"),
@@ -655,6 +666,95 @@ def keyword_mutants(r, conf, n):
     return out
 
 
+# ---- optional keywords of every block type, harvested from the code, misspelt by families
+STATIC_FILES = {"global": ["colvarmodule.cpp"], "colvar": ["colvar.cpp"], "component": ["colvarcomp.cpp"],
+                "group": ["colvaratoms.cpp"], "bias": ["colvarbias.cpp"]}
+KW_CALL = re.compile(r'(?:get_keyval|key_lookup|get_keyval_feature)\s*\(\s*[^,()]*(?:\([^()]*\))?[^,()]*,\s*"(\w+)"')
+
+
+def static_keywords(repo):
+    """keywords that the sources look up, per source file (harvested from the get_keyval/key_lookup calls)"""
+    out = {}
+    for f in glob.glob(os.path.join(repo, "src", "*.cpp")):
+        try:
+            ks = set(KW_CALL.findall(open(f, errors="replace").read()))
+        except OSError:
+            ks = set()
+        if ks:
+            out[os.path.basename(f)] = ks
+    return out
+
+
+def harvest_keywords(log):
+    """keywords echoed by the parser while it reads a valid configuration ("# keyword = value [default]"),
+       per block type: global / colvar / component / group / bias:<type>"""
+    H = {}
+    lvl1 = "colvar"
+    for line in log.split("\n"):
+        if not line.startswith("colvars:"):
+            continue
+        txt = line[len("colvars:"):]
+        if "Initializing a new collective variable" in txt:
+            lvl1 = "colvar"
+        m = re.search(r'Initializing a new "(\w+)" instance', txt)
+        if m:
+            lvl1 = "bias:" + m.group(1).lower()
+        m = re.match(r"^( +)# (\w+) = ", txt)
+        if m:
+            level = (len(m.group(1)) - 1) // 2
+            label = "global" if level == 0 else lvl1 if level == 1 else "component" if (level == 2 and lvl1 == "colvar") else "group"
+            H.setdefault(label, set()).add(m.group(2))
+    return H
+
+
+def block_opens(L):
+    """(line index, block type label, indentation) of every multi-line block of a configuration; index -1 = module level"""
+    out = [(-1, "global", b"")]
+    stack = []
+    for i, l in enumerate(L):
+        m = re.match(rb"^(\s*)([A-Za-z_][A-Za-z0-9_]*)\s*\{\s*$", l)
+        if m:
+            d = len(stack)
+            kw = m.group(2).lower().decode()
+            label = ("colvar" if kw == "colvar" else "bias:" + kw) if d == 0 else ("component" if (d == 1 and stack[0] == "colvar") else "group")
+            out.append((i, label, m.group(1) + b"  "))
+            stack.append(kw if d == 0 else label)
+        else:
+            for ch in l:
+                if ch == 0x7b:
+                    stack.append("?")
+                elif ch == 0x7d and stack:
+                    stack.pop()
+    return out
+
+
+def optional_keyword_mutants(r, conf, H, S, allkw, n, families=None):
+    """an OPTIONAL keyword of the block's type (harvested), misspelt, on a line of its own inside that block: must be refused"""
+    L = clean_lines(conf)
+    opens = block_opens(L)
+    out = []
+    tries = 0
+    while len(out) < n and tries < 20 * n:
+        tries += 1
+        i, label, ind = r.choice(opens)
+        dyn = sorted(H.get(label, ()))
+        base = label.split(":")[0]
+        sta = sorted(set().union(*[S.get(f, set()) for f in STATIC_FILES.get(base, [])]))
+        pool = dyn if (dyn and r.random() < 0.8) else (sta or dyn)
+        if not pool:
+            continue
+        kw = r.choice(pool).encode()
+        ms = G.misspell(r, kw, allkw, r.choice(families) if families else None)
+        if not ms:
+            continue
+        fam, w = ms
+        M = list(L)
+        M.insert(i + 1, ind + w + b" 1")
+        out.append(("misspelt-optional-" + fam, b"\n".join(M) + b"\n",
+                    "optional keyword %s of a %s block written %s (line %d)" % (kw.decode(), label, w.decode(), i + 2)))
+    return out
+
+
 def layout_rewrite(r, conf):
     """a rewrite of the configuration that only uses the documented free aspects of the syntax; returns (bytes, [what])"""
     L = clean_lines(conf)
@@ -846,7 +946,7 @@ def check(run):
         if bad:
             run.violation(bad[0], bad[1], {"kind": "unit", "case": c, "impl": io, "model": mo})
         if io != mo:
-            comp = "unit:" + {"KL": "key_lookup", "CB": "braces", "SC": "comments", "SS": "split_string", "PF": "flat", "PC": "flat", "NP": "nested", "MS": "sequence", "PS": "sequence"}.get(kind, kind)
+            comp = "unit:" + {"KL": "key_lookup", "CB": "braces", "SC": "comments", "SS": "split_string", "PF": "strict:flat", "PC": "strict:flat", "NP": "strict:nested", "MS": "strict:sequence", "PS": "strict:sequence"}.get(kind, kind)
             if kind in ("PF", "PC"):
                 # is it the pinned (lenient) value rule?  then the repaired defect is back: name it
                 rcl, ml, _ = V.run_lines(model, [c.replace(kind + " 1 ", kind + " 0 ", 1)])
@@ -897,6 +997,10 @@ def check(run):
             bases.append(("suite:" + name, len(xyz), spos, c))
     nm = 5 if quick else 40
     nl = 3 if quick else 25
+    nopt = 6 if quick else 60
+    S_KW = static_keywords(V.REPO)
+    allkw = set(k.lower().encode() for ks in S_KW.values() for k in ks)
+    HARVEST = {}
     usable = 0
     for name, natoms, pos, conf in bases:
         rc, o, e = run_scn(unit, d, "base", scenario(natoms, pos, conf))
@@ -915,7 +1019,14 @@ def check(run):
         usable += 1
         base_obs = observables(o)
         run.dist("module:base")
-        for kind, mconf, descr in keyword_mutants(r, conf, nm):
+        # harvest the keywords this configuration's blocks look up (echoed by the parser), then misspell optional ones
+        rch, och, ech = run_scn(unit, d, "harv", scenario(natoms, pos, conf, 0).replace("new\n", "new\nquiet 0\n", 1))
+        H = harvest_keywords(ech or "")
+        for lab, ks in H.items():
+            HARVEST.setdefault(lab, set()).update(ks)
+            allkw.update(k.lower().encode() for k in ks)
+        opt = optional_keyword_mutants(r, conf, H, S_KW, allkw, nopt)
+        for kind, mconf, descr in keyword_mutants(r, conf, nm) + opt:
             rc, o2, e2 = run_scn(unit, d, "mut", scenario(natoms, pos, mconf, 1))
             s2 = conf_status(o2)
             run.count("mut:" + name + ":" + descr, True)
@@ -927,6 +1038,8 @@ def check(run):
                     "timed out" if rc == 124 else "died with signal %d" % -rc, kind, name, descr, site), rp)
             elif s2 == "ok":
                 sig = "strict:module:%s-accepted" % kind
+                if kind.startswith("misspelt-optional-"):
+                    sig = "strict:module:keyword-%s-accepted" % kind[len("misspelt-optional-"):]
                 if kind == "text-for-number":
                     sig = "strict:scalar:text-after-number" if " written " in descr else sig
                 run.violation(sig, "mutant of %s accepted without error: %s" % (name, descr), rp)
@@ -948,6 +1061,7 @@ def check(run):
         if usable == 1:
             run.sample({"module_base": name, "config": conf.decode("latin1").split("\n")[:12], "observables": base_obs.split("\n")[:6]})
     run.cov["correspondence"]["module_bases_usable"] = usable
+    run.cov["correspondence"]["harvested_keywords"] = {k: len(v) for k, v in sorted(HARVEST.items())}
     # sequences of configurations sent to ONE module instance: the verdict on the last one and the objects it creates
     # must be those of a fresh module given only that configuration (earlier ones use other names)
     nseq = 30 if quick else 400
